@@ -11,6 +11,11 @@ UNITS = [
     # K4 small helpers (header-only) and the local allocator's decision functions (ralocal.cpp; nothing else of it is reached)
     Unit('defs', harness=['h_defs.cpp'], repo_units=[]),
     Unit('decide', harness=['h_decide.cpp'], repo_units=['asmjit/core/ralocal.cpp']),
+    # K5 the instructions the allocator inserts (x86): the pass's emit_* functions + the move selection of the emit helper
+    Unit('emit_x86', harness=['h_emit_x86.cpp'], repo_units=['asmjit/x86/x86rapass.cpp', 'asmjit/x86/x86emithelper.cpp', 'asmjit/core/rapass.cpp', 'asmjit/core/rastack.cpp',
+                                                            'asmjit/support/arenavector.cpp', 'asmjit/core/archtraits.cpp', 'asmjit/core/type.cpp', 'asmjit/core/environment.cpp']),
+    Unit('emit_a64', harness=['h_emit_a64.cpp'], repo_units=['asmjit/arm/a64rapass.cpp', 'asmjit/arm/a64emithelper.cpp', 'asmjit/core/rapass.cpp', 'asmjit/core/rastack.cpp',
+                                                            'asmjit/support/arenavector.cpp', 'asmjit/core/archtraits.cpp', 'asmjit/core/type.cpp', 'asmjit/core/environment.cpp']),
 ]
 
 Q, T = ('quick', 'thorough'), ('thorough',)
@@ -33,6 +38,8 @@ ASSIGN_OPS = {
     'copy': 'two arbitrary consistent states over the same work registers: equals; copy_from(assignment) / copy_from(both maps) / copy_from(phys map) + assign_work_ids_from_phys_ids; swap(RAAssignment&)',
     'maps': 'PhysToWorkMap::unassign(group, p, index) followed by assign_work_ids_from_phys_ids; PhysToWorkMap::reset + WorkToPhysMap::reset',
 }
+B_EMIT86 = 'work register of symbolic TypeId (all 256 values; those ArchUtils::type_id_to_reg_signature accepts for x86-64: int8..uint64, intptr/uintptr, float32/64, mask8..64, mmx32/64, every 32/64/128/256/512-bit vector type), signature / size / alignment derived as BaseCompiler does, virtual index 16 bits, physical ids 0..31, SSE / AVX / AVX-512 mode; 256-bit types only with AVX, 512-bit and mask types only with AVX-512; home slot existing or created on demand'
+B_EMITA64 = 'work register of symbolic TypeId (all 256 values; those accepted for AArch64: integers, float32/64, 32/64/128-bit vector types), virtual index 16 bits, physical ids 0..31; home slot existing or created on demand'
 B_SLOT = 'size 1..2^20, alignment 1,2,4,..,128, flags {register home, stack argument} x 2, use count 32 bits, stale weight/offset 32 bits - all symbolic per slot'
 
 HARNESSES = [
@@ -66,14 +73,28 @@ HARNESSES = [
     Harness('decide', 'h_decide_spill', unwind=17, mem_gb=3, timeout=900, bounds='decide_on_spill_for on an arbitrary consistent 2 x 8 / 6 assignment (as K2), candidates = any non-empty subset of the occupied registers of the group; use frequencies fixed to {0.5, 0.25, 0.5, 1, 0.125, 0.25} (ties with the dirty penalty included): result in the set, victim reported, cheapest under calc_spill_cost, lowest id among equals'),
     Harness('decide', 'h_decide_spill_anyfreq', unwind=17, mem_gb=3, timeout=900, bounds='as h_decide_spill with symbolic use frequencies k/16, k < 256: result in the set and victim reported (minimality not asserted: float products are beyond the solver here)'),
     Harness('decide', 'h_decide_cost', unwind=17, mem_gb=1, timeout=300, bounds='calc_spill_cost for frequencies {0, 1/16, 1, 37.5} on an arbitrary consistent assignment: frequency * 2^20 + 2^18 if the register is dirty'),
+] + [
+    # measured: 0.4-2.5 s, < 150 MB each
+    Harness('emit_x86', 'h_emit_x86_' + nm, unwind=10, mem_gb=1, timeout=300, bounds=what) for nm, what in (
+        ('move', 'X86RAPass::emit_move: ' + B_EMIT86), ('load', 'X86RAPass::emit_load (minus the regions of C05A, C05B): ' + B_EMIT86), ('save', 'X86RAPass::emit_save (minus the regions of C05A, C05B): ' + B_EMIT86),
+        ('swap', 'X86RAPass::emit_swap: two GP work registers of symbolic integer types int8..uint64 (all 64 pairs), physical ids 0..15'),
+        ('jump', 'X86RAPass::emit_jump: label id symbolic over 32 bits'))
+] + [
+    Harness('emit_a64', 'h_emit_a64_' + nm, unwind=10, mem_gb=1, timeout=300, bounds=what) for nm, what in (
+        ('move', 'ARMRAPass::emit_move: ' + B_EMITA64), ('load', 'ARMRAPass::emit_load: ' + B_EMITA64), ('save', 'ARMRAPass::emit_save: ' + B_EMITA64),
+        ('jump', 'ARMRAPass::emit_jump: label id symbolic over 32 bits'))
+] + [
+    Harness('emit_x86', 'h_emit_x86_%s_kf_%s' % (op, kf), unwind=10, mem_gb=1, timeout=300, known=kf,
+            bounds='emit_%s confined to the region of known finding %s (%s)' % (op, kf, 'TypeId kFloat32 / kFloat64' if kf == 'C05A' else 'TypeId kMmx32'))
+    for kf in ('C05A', 'C05B') for op in ('load', 'save')
 ]
 
 EXPLANATION = (
     'PARTIAL. The property (a compiled function behaves like its virtual-register program for every program and input, on x86, x86-64 and AArch64) is a '
     'whole-program statement and is NOT decided: it cannot be encoded within reach of the tools in this sandbox (it would need symbolic execution of a pass that '
     'allocates in hundreds of places and walks heap graphs of nodes/blocks/work registers, a liveness fixpoint, and an interpreter of x86 / AArch64 as the oracle). '
-    'What IS decided, by bounded symbolic execution (CBMC) of the real functions compiled from /repo, are four kernels the correctness argument of the pass rests on, '
-    'each as a one-step / whole-input-space proof: '
+    'What IS decided, by bounded symbolic execution (CBMC) of the real functions compiled from /repo, are the kernels the correctness argument of the pass rests on, '
+    '(five since K5 was added) each as a one-step / whole-input-space proof: '
     'K1 RALiveSpans::non_overlapping_union_of / intersects / open_at / close_at (radefs_p.h): bin_pack shares a physical register between two virtual registers only if '
     'this function accepts, and it accepts iff no two live spans intersect (half-open [a, b)); the accepted union is exactly the sorted disjoint merge, so the argument '
     'iterates over all registers packed into one physical register; arena failure is reported. '
@@ -84,6 +105,10 @@ EXPLANATION = (
     'stack_size / alignment are consistent; adjust_slot_offsets shifts all homes alike; new_slot establishes the state calculate_stack_frame starts from. '
     'K4 the pure helpers (RARegCount / RARegIndex / RARegMask / RARegsStats / RATiedReg predicates) and the local allocator\'s decision functions '
     '(decide_on_assignment / decide_on_reassignment / decide_on_spill_for / calc_spill_cost / pick_best_suitable_register): every choice lies inside the mask it was given. '
+    'K5 the instructions the allocator inserts (X86RAPass / ARMRAPass emit_move, emit_swap, emit_load, emit_save, emit_jump with the emit helpers\' emit_reg_move): for a work register '
+    'of any type the Compiler can create exactly one instruction is emitted, on the given physical registers of the register\'s class and (load/save) on the register\'s home operand; '
+    'it is an instruction the ISA defines for that class and shape (reference tables in the harnesses, written from the SDM / Arm ARM) and it transfers at least every byte of the '
+    'virtual register\'s type (swap: of the wider of the two) and, in memory, no byte beyond the home slot; two defects found by this lemma are recorded as known findings C05A, C05B. '
     'These are lemmas; their composition into the end-to-end claim is not checked by anything here.'
 )
 OUTSIDE = [
@@ -93,7 +118,8 @@ OUTSIDE = [
     'bin_pack itself (order, hints, consecutive-register placement, preferred / clobber-survival masks) - only the acceptance test it relies on is checked',
     'local allocation as a whole: alloc_instruction, spill_after_allocation, switch_to_assignment, alloc_branch, alloc_jump_table, make_initial_assignment, the emitted moves/swaps/loads/saves and their order - only the map operations (K2) and the decision functions (K4) they call are checked, one call at a time; that the allocator calls them with the right arguments is not',
     'call and return lowering, argument shuffling, operand rewriting virtual -> physical / stack, prolog/epilog insertion (C06/C07 check the non-RA parts)',
-    'AArch64- and x86-specific RA code (nothing architecture-specific is reached by these harnesses)',
+    'AArch64- and x86-specific RA code other than emit_move / emit_swap / emit_load / emit_save / emit_jump (K5): on_instruction, on_invoke / on_ret, emit_pre_call, rewrite, on_init',
+    'K5: that the allocator calls emit_* at the right places with the right registers; the later rewrite of the home operand to [sp + offset]; encoding of the emitted instruction (C01/C02); x86 32-bit mode; alignment faults of aligned vector moves depend on the frame alignment (C07); register signatures that differ from what type_id_to_reg_signature gives for the type',
     'K1: lists longer than 3 + 3 spans; lists violating the invariant (unsorted / overlapping within one list); K1 loose: only the soundness direction for lists with empty spans',
     'K2: more than 6 (8) work registers, other register files than 2 x 8 and 16/32/8/8; sequences of operations (one step from an arbitrary consistent state is proved, which covers every reachable state of these sizes by induction); calls that violate an ASMJIT_ASSERT precondition or pass a group different from the work register\'s group',
     'K3: more than 4 slots; sizes above 2^20 bytes; alignments above 128; the order in which slots are laid out (weights are checked, the order is not part of the claim)',
@@ -106,6 +132,8 @@ ASSUMPTIONS = [
     'K2 preconditions beyond the ASMJIT_ASSERTs: the group argument is the work register\'s group and the physical id is below the group\'s register count (all callers pass work_reg->group() and ids taken from masks of existing registers); make_clean/make_dirty are called for the register the work register is in',
     'K3 environment: Arena::_alloc_oneshot / _alloc_reusable are harness stand-ins handing out typed RAStackSlot objects / pointer arrays, failing nondeterministically in h_stack_new_slot; during calculate_stack_frame any request is an asserted error (the function never asks for memory - proved, see the check report)',
     'K3 hand-built states: allocator alignment = max(1, slot alignments), slot alignment a power of two 1..128, size >= 1 - established by new_slot (h_stack_new_slot, h_stack_chain_*) from the values BaseCompiler::_new_stack / new_virt_reg produce',
+    'K5: BaseEmitter::_emitI (one and two operands) is a recording harness stub; the emitter is raw storage; X86RAPass / ARMRAPass, RAWorkReg, VirtReg are raw typed storage with only the fields emit_* read set (Pass::_cb is bound through its ABI slot, asserted); logging / kRAAnnotate off; Arena stand-in hands out one RAStackSlot and one slot-vector block; a 256-bit (512-bit / mask) type is only used when the function has AVX (AVX-512) enabled',
+    'K5 reference tables (what each mov/movzx/movd/movq/movss/movsd/movaps/movapd/movdqa/vmov*/kmov*/xchg and ldr/ldrb/ldrh/str/strb/strh/mov/fmov form transfers, for which register class it exists) are written in the harness from the SDM / Arm ARM',
     'K4: RALocalAllocator / BaseRAPass objects are raw storage with only the fields the decision functions read set; home register ids are none or < 32',
 ]
 
@@ -118,3 +146,6 @@ ASSUMPTIONS = [
 #   k4_assign_mask    decide_on_assignment replaces the allocable mask             -> h_decide_assignment
 #   k4_spill_victim   decide_on_spill_for forgets to update the victim work id     -> h_decide_spill_anyfreq
 #   k4_regindex       build_indexes drops the third summand                        -> h_defs_regcount
+#   k5_x86_swap_min   X86RAPass::emit_swap takes the width of the NARROWER register (seeded change m1) -> h_emit_x86_swap
+#   k5_x86_mask64     emit_reg_move moves a 64-bit mask with kmovd                  -> h_emit_x86_move (and load/save)
+#   k5_a64_save_w     a64 emit_reg_move stores a 64-bit integer with str Wt         -> h_emit_a64_save
